@@ -66,6 +66,16 @@ type vfTree struct {
 	obs    map[string][]vfObs // server:path -> observations while the path held one object
 	ledIno map[string]uint64
 	dead   bool
+	forced *vfForced // scripted step (nil = seeded random step)
+}
+
+// vfForced pins the choices of one step (used by the scripted scenarios).
+type vfForced struct {
+	k            int // selects the procedure (see the switch in step)
+	h, h2        *vfLH
+	name, name2  string
+	target       string
+	plus         bool
 }
 
 func (t *vfTree) fail(sig, what string) {
@@ -333,6 +343,9 @@ func (t *vfTree) step() bool {
 	k := t.rng.Intn(100)
 	name := vfTreeNames[t.rng.Intn(len(vfTreeNames))]
 	h := t.pickHandle(true)
+	if f := t.forced; f != nil {
+		k, name, h = f.k, f.name, f.h
+	}
 	child := path.Join(h.path, name)
 	depthOK := strings.Count(child, "/") <= 3
 	_, childExists := t.model.Peek(child)
@@ -502,6 +515,9 @@ func (t *vfTree) step() bool {
 		}
 		proc = "SYMLINK"
 		target := []string{"a", "b", "c/d", "zz", "./a"}[t.rng.Intn(5)]
+		if t.forced != nil {
+			target = t.forced.target
+		}
 		t.ops = append(t.ops, fmt.Sprintf("SYMLINK %s %q -> %q", h.path, name, target))
 		vals := make([]uint64, K)
 		if !run(func(i int) (*rfc.Res, error) { return t.cl[i].symlink(h.val[i], name, target, sattrNone) }, func(i int, r *rfc.Res) string {
@@ -585,6 +601,9 @@ func (t *vfTree) step() bool {
 		proc = "RENAME"
 		h2 := t.pickHandle(true)
 		name2 := vfTreeNames[t.rng.Intn(len(vfTreeNames))]
+		if t.forced != nil {
+			h2, name2 = t.forced.h2, t.forced.name2
+		}
 		child2 := path.Join(h2.path, name2)
 		if strings.Count(child2, "/") > 3 {
 			return true
@@ -616,6 +635,9 @@ func (t *vfTree) step() bool {
 		}
 	case k < 74: // READDIR / READDIRPLUS
 		plus := t.rng.Intn(2) == 0
+		if t.forced != nil {
+			plus = t.forced.plus
+		}
 		proc = map[bool]string{false: "READDIR", true: "READDIRPLUS"}[plus]
 		t.ops = append(t.ops, fmt.Sprintf("%s %s", proc, h.path))
 		if !run(func(i int) (*rfc.Res, error) {
@@ -654,7 +676,9 @@ func (t *vfTree) step() bool {
 		}
 	case k < 82: // GETATTR (any handle, including symlinks)
 		proc = "GETATTR"
-		h = t.pickHandle(false)
+		if t.forced == nil {
+			h = t.pickHandle(false)
+		}
 		unamb = t.unambiguous(h)
 		t.ops = append(t.ops, "GETATTR "+h.path)
 		if !run(func(i int) (*rfc.Res, error) { return t.cl[i].getattr(h.val[i]) }, func(i int, r *rfc.Res) string {
@@ -678,7 +702,9 @@ func (t *vfTree) step() bool {
 		}
 	case k < 88: // READLINK
 		proc = "READLINK"
-		h = t.pickHandle(false)
+		if t.forced == nil {
+			h = t.pickHandle(false)
+		}
 		unamb = t.unambiguous(h)
 		t.ops = append(t.ops, "READLINK "+h.path)
 		if !run(func(i int) (*rfc.Res, error) { return t.cl[i].readlink(h.val[i]) }, func(i int, r *rfc.Res) string {
@@ -759,7 +785,9 @@ func (t *vfTree) step() bool {
 		}
 	default: // WRITE a few bytes to a file so that sizes move
 		proc = "WRITE"
-		h = t.pickHandle(false)
+		if t.forced == nil {
+			h = t.pickHandle(false)
+		}
 		unamb = t.unambiguous(h)
 		e, ok := t.model.Peek(h.path)
 		if !ok || e.Kind != refs.KFile || !unamb {
@@ -786,6 +814,64 @@ func (t *vfTree) step() bool {
 	}
 	if proc != "" && t.prop == "C02" {
 		t.rec.Distinct(fmt.Sprintf("%s|child=%v|unambiguous=%v|st=%d", proc, childExists, unamb, outs[0].st))
+	}
+	return true
+}
+
+// ---- scripted scenarios: known cache windows driven through the same engine ----
+
+// handleFor returns the most recently issued logical handle for path p.
+func (t *vfTree) handleFor(p string) *vfLH {
+	for i := len(t.hs) - 1; i >= 0; i-- {
+		if t.hs[i].path == p {
+			return t.hs[i]
+		}
+	}
+	return nil
+}
+
+var vfScriptK = map[string]int{"LOOKUP": 0, "CREATE": 14, "MKDIR": 24, "SYMLINK": 33, "REMOVE": 40, "RMDIR": 49, "RENAME": 56, "READDIR": 66, "READDIRPLUS": 66, "GETATTR": 74, "READLINK": 82, "WRITE": 99}
+
+// vfScripts: each step is "PROC handle-path name [handle2-path name2 | target]".
+var vfScripts = [][]string{
+	{"MKDIR / d", "CREATE /d f", "LOOKUP /d f", "RENAME / d / e", "LOOKUP /d f", "GETATTR /d/f", "LOOKUP / e", "LOOKUP /e f", "LOOKUP / d"},
+	{"LOOKUP / x", "MKDIR / x", "LOOKUP / x", "LOOKUP /x y", "CREATE /x y", "LOOKUP /x y", "LOOKUP /x z", "SYMLINK /x z zz", "LOOKUP /x z"},
+	{"READDIR /", "CREATE / a", "READDIR /", "MKDIR / b", "READDIRPLUS /", "SYMLINK / c zz", "READDIR /", "REMOVE / a", "READDIRPLUS /", "RMDIR / b", "READDIR /", "RENAME / c / d", "READDIR /"},
+	{"CREATE / a", "WRITE /a", "LOOKUP / a", "REMOVE / a", "SYMLINK / a zz", "LOOKUP / a", "READLINK /a", "REMOVE / a", "MKDIR / a", "LOOKUP / a", "GETATTR /a", "READDIR /a"},
+	{"CREATE / a", "CREATE / b", "WRITE /a", "LOOKUP / a", "LOOKUP / b", "RENAME / a / b", "LOOKUP / b", "LOOKUP / a", "GETATTR /b"},
+	{"MKDIR / d", "MKDIR /d e", "CREATE /d/e f", "LOOKUP /d/e f", "READDIR /d/e", "RENAME / d / g", "LOOKUP / g", "LOOKUP /g e", "LOOKUP /g/e f", "READDIR /d/e", "LOOKUP /d e", "LOOKUP /d/e f", "MKDIR / d", "LOOKUP /d e", "READDIR /d"},
+	{"MKDIR / d", "LOOKUP /d n", "CREATE / t", "RENAME / t /d n", "LOOKUP /d n", "LOOKUP / t", "READDIR /d"},
+	{"SYMLINK / l zz", "LOOKUP / l", "READLINK /l", "REMOVE / l", "CREATE / l", "LOOKUP / l", "READLINK /l", "GETATTR /l"},
+	{"MKDIR / d", "READDIR /d", "MKDIR /d s", "READDIRPLUS /d", "RMDIR /d s", "READDIR /d", "CREATE /d s", "READDIR /d", "RENAME /d s / s", "READDIR /d", "READDIR /"},
+	{"MKDIR / p", "CREATE /p f", "LOOKUP /p f", "REMOVE /p f", "RMDIR / p", "LOOKUP / p", "MKDIR / p", "LOOKUP /p f", "READDIR /p"},
+}
+
+// runScript executes one scripted scenario; returns false if it stopped early.
+func (t *vfTree) runScript(steps []string) bool {
+	for _, st := range steps {
+		f := strings.Fields(st)
+		fo := &vfForced{k: vfScriptK[f[0]], h: t.handleFor(f[1]), plus: f[0] == "READDIRPLUS"}
+		if fo.h == nil {
+			return true // the handle was never issued on this run; nothing to do
+		}
+		if len(f) > 2 {
+			fo.name = f[2]
+		}
+		if f[0] == "SYMLINK" {
+			fo.target = f[3]
+		}
+		if f[0] == "RENAME" {
+			fo.h2, fo.name2 = t.handleFor(f[3]), f[4]
+			if fo.h2 == nil {
+				return true
+			}
+		}
+		t.forced = fo
+		ok := t.step()
+		t.forced = nil
+		if !ok {
+			return false
+		}
 	}
 	return true
 }
